@@ -1,0 +1,11 @@
+//go:build verif
+
+package bits
+
+// Accessors used by the model-based verification harness (build tag verif only).
+
+// VerifNr0 returns the EBSPWriter's count of zero bytes just written.
+func (w *EBSPWriter) VerifNr0() int { return w.nr0 }
+
+// VerifZeroCount returns the EBSPReader's count of zero bytes just read.
+func (r *EBSPReader) VerifZeroCount() int { return r.zeroCount }
